@@ -40,8 +40,9 @@ def boundaryVer (now : Nat) (g : List Ent) : Nat :=
   | some b => b.ver
   | none => 0
 
-/-- the KVs of a backup whose producers all read at the ONE timestamp `R` (by `C25_concat` the
-    split into key ranges does not matter then): `DB.Backup(w, since)` sets `SinceTs = since`. -/
+/-- the KVs of a backup run reading at its ONE timestamp `R` (`Stream.beginRun`; by `C25_concat`
+    / `C24_split_irrelevant` the split into key ranges does not matter):
+    `DB.Backup(w, since)` sets `SinceTs = since`. -/
 def backupKVs (view : List Ent) (since R now : Nat) : List Ent :=
   produceRange view (backupCfg [] since since now) R now { left := [], right := [] }
 
@@ -573,9 +574,9 @@ theorem C24Aux.incremental_aux (s1 s2 : List Ent) (h1 : GoodView s1) (h2 : GoodV
 
 /-- C24_incremental: a full backup at `R1` followed by an incremental one at `R2` taken with
     `since` = the version the first returned, loaded in that order into an empty DB, reproduce
-    the source's final visible state — provided each backup read one snapshot (hypothesis built
-    into `backupKVs`; false on the unchanged code when commits race with the producers' start,
-    finding F7) and the history between them only grew above the returned version. -/
+    the source's final visible state — provided the history between them only grew above the
+    returned version (a compaction that drops a delete marker breaks this: finding F19). Each
+    backup reads one snapshot (`Stream.beginRun`, commit 5000444; `C24_split_irrelevant`). -/
 theorem C24_incremental (s1 s2 : List Ent) (h1 : GoodView s1) (h2 : GoodView s2) (o : Opts) (R1 R2 now : Nat)
     (hR : R1 ≤ R2)
     (hchain : s2.filter (fun e => decide (e.ver ≤ maxVersionOf (backupKVs s1 0 R1 now))) =
